@@ -415,14 +415,12 @@ impl RaftStorage<ClientRequest, ClientResponse> for FileStore {
             .send(StateApplyRequest::ApplySnapshot { snapshot })
             .await??;
         //清除废弃日志
-        let split_off_index = if let Some(v) = delete_through {
-            v + 1
-        } else {
-            //None: the snapshot covers the whole log, every entry is to be deleted
-            u64::MAX
-        };
+        //None: the snapshot covers the whole log, every entry is to be deleted.
+        //Some(v): raft keeps v as its last log index and sends the entries after v again; this log
+        //cannot overwrite, so they are removed as well and the snapshot pointer starts the log.
+        let _ = delete_through;
         self.log_manager
-            .send(RaftLogManagerRequest::SplitOff(split_off_index))
+            .send(RaftLogManagerRequest::SplitOff(u64::MAX))
             .await??;
         //add new_snapshot_pointer
         let membership_config = self.get_membership_config().await?;
